@@ -325,11 +325,17 @@ class _Expr:
 
     def getattr_(self, node, st, recv, attr):
         attr_m = self.mangle(attr)
-        dyn = DYNATTR.get(attr_m)
+        dyn = self.proc.dynattr.get(attr_m) or DYNATTR.get(attr_m)
         if recv.ty.kind not in ('obj', 'list', 'dict'):
             raise Unsupported(node, 'attribute %s of %r' % (attr, recv.ty))
         if dyn is not None:
             return dyn(self, node, st, recv)
+        f = self.proc.attr_alias.get(attr_m, attr_m)
+        f = FIELD_ALIAS.get(f, f)
+        if f not in self.reg.fields:
+            hits = [h for h in self.reg.by_simple_name(attr) if h.params and h.params[0][0] in ('self', 'cls')]
+            if len(hits) == 1:
+                return [(st, V(Ty('bound'), (hits[0], recv)))]
         return [(st, self.read_field(st, recv.t, attr))]
 
     def ev_Subscript(self, node, st):
@@ -565,6 +571,8 @@ class _Expr:
         ak, bk = a.ty.kind, b.ty.kind
         if ak in ('int', 'bool') and bk in ('int', 'bool'):
             return self.coerce(a, INT).t == self.coerce(b, INT).t
+        if ak == 'obj' and bk in ('int', 'bool') and self.proc.locals.get('$int_eq'):
+            return unbox_int(a.t) == self.coerce(b, INT).t
         if ak == 'name' and bk == 'name':
             return a.t == b.t
         if ak == 'tup' and bk == 'tup':
@@ -598,6 +606,10 @@ class _Expr:
             r = self.contains(node, st, b, a)
             return r if isinstance(op, ast.In) else z3.Not(r)
         ak, bk = a.ty.kind, b.ty.kind
+        if ak == 'obj' and bk in ('int', 'bool'):
+            a, ak = V(INT, unbox_int(a.t)), 'int'
+        if bk == 'obj' and ak in ('int', 'bool'):
+            b, bk = V(INT, unbox_int(b.t)), 'int'
         if ak in ('int', 'bool') and bk in ('int', 'bool'):
             return CMP[type(op)](self.coerce(a, INT).t, self.coerce(b, INT).t)
         if ak == 'name' and bk == 'name':
@@ -670,6 +682,9 @@ class _Calls:
             hits = self.reg.by_simple_name(f.id)
             if len(hits) == 1 and f.id not in st.env:
                 return self.call_contract(node, st, hits[0])
+            if f.id in st.env and st.env[f.id].ty.kind == 'bound':
+                callee, recv = st.env[f.id].t
+                return self.call_contract(node, st, callee, recv=recv)
             if f.id in st.env or f.id in self.proc.opaque_calls:
                 return self.call_opaque(node, st)
             raise Unsupported(node, 'call of %s: no contract' % text)
@@ -1020,10 +1035,13 @@ class _Contracts:
             w = when(c2)
             whens.append(w)
             s2.assume(w)
+            excv = V(OBJ, fresh('exc_' + exc, Obj))
+            c2.res = excv.t
+            s2.assume(excv.t != NONE)
             for label, f in _norm(post(c2) if post else [], 'rpost'):
                 s2.assume(f)
             if not self.dead(s2):
-                self.raise_(s2, exc)
+                self.raise_(s2, exc, excv)
         for w in whens:
             s.assume(z3.Not(w))
         res = self.fresh_value(proc.result, 'res_' + proc.key.split(':')[-1].split('.')[-1])
@@ -1146,6 +1164,12 @@ class _Stmts:
         if isinstance(e, ast.Call):
             name = ast.unparse(e.func).split('.')[-1]
             out = []
+            hits = self.reg.by_simple_name(name) if isinstance(e.func, ast.Name) else []
+            if len(hits) == 1:
+                for s, v in self.call_contract(e, st, hits[0]):
+                    s.cur_exc = name
+                    out.append((s, Out(RAISE, v, name)))
+                return out
             # evaluate constructor arguments for their effects / obligations only
             args = [a for a in e.args if not isinstance(a, ast.Constant)]
             for s, vs in self.ev_list(args, st):
@@ -1232,7 +1256,7 @@ class _Stmts:
             rs = self.ev(tgt.value, st)
             if len(rs) != 1:
                 raise Unsupported(tgt, 'forking assignment target')
-            h = SETATTR.get(self.mangle(tgt.attr))
+            h = self.proc.setattr_.get(self.mangle(tgt.attr)) or SETATTR.get(self.mangle(tgt.attr))
             if h is not None:
                 h(self, tgt, rs[0][0], rs[0][1], v)
             else:
@@ -1341,7 +1365,7 @@ class _Stmts:
                 if any(p is None for p in parts):
                     return None
                 return V(TUP(*[p.ty for p in parts]), tuple(parts))
-            if va.ty.kind in ('localfn', 'exc', 'enum', 'zip', 'items'):
+            if va.ty.kind in ('localfn', 'exc', 'enum', 'zip', 'items', 'bound'):
                 return va if va.t is vb.t else None
             return va if va.t.eq(vb.t) else V(va.ty, z3.If(t, va.t, vb.t))
         try:
@@ -1360,8 +1384,7 @@ class _Stmts:
                     names = self.handler_names(h)
                     if any(exc_subclass(o.exc, n) for n in names):
                         if h.name:
-                            s.env[h.name] = V(Ty('exc'), o.exc) if o.val is None else \
-                                (o.val if o.val.ty.kind == 'obj' else V(Ty('exc'), o.exc))
+                            s.env[h.name] = o.val if (o.val is not None and o.val.ty.kind == 'obj') else V(Ty('exc'), o.exc)
                         s.cur_exc = o.exc
                         s.trace.append('L%d:except %s' % (h.lineno, o.exc))
                         out.extend(self.run(h.body, s))
@@ -1815,7 +1838,8 @@ class Exec(Exec, _Expr, _Calls, _Contracts, _Stmts, _Loops):
                 self.oblige(s, 'post:%s' % label, f, 'post')
             self.check_frame(s)
         else:
-            c = Ctx(self.args, s.heap, self.entry_heap, locals_=s.env)
+            c = Ctx(self.args, s.heap, self.entry_heap, locals_=s.env,
+                    res=o.val.t if (o.val is not None and o.val.ty.kind == 'obj') else None)
             matched = False
             for exc, (when, post) in proc.raises.items():
                 if exc_subclass(o.exc, exc):
